@@ -217,6 +217,70 @@ def site_stream(mmv, pkg, shapes=((0, 0), (1, 3), (2, 1), (3, 0), (3, 3), (4, 2)
     return cases
 
 
+def probed_keys():
+    """every key and literal any hook of the current package probes (from the translated hook table)"""
+    import re as _re
+    try:
+        txt = open(os.path.join(V.GEN, "PkgData.v")).read()
+        hooks_txt = txt[txt.index("Definition uhooks_"):txt.index("Definition Sg")]
+    except Exception:
+        return [], []
+    keys = sorted(set(_re.findall(r'CHasKey "((?:[^"]|"")*)"', hooks_txt)) | set(_re.findall(r'HKey [^"]*"((?:[^"]|"")*)"', hooks_txt)))
+    return keys, hooks_txt
+
+
+def probe_subset_cases(mmv, pkg, cap=32):
+    """The enumeration the adequacy proof of the hooks performs (HookFrag.cls_member_ok), as concrete VALID inputs: at every union
+    occurrence, for every structure alternative, the minimal value plus EVERY subset of its optional members that some hook probes
+    (so each (member class, probed key set) case of every hook has an input that reaches it on the real converter)."""
+    import itertools
+    keys, _ = probed_keys()
+    keys = set(keys)
+    cases = []
+
+    def variants(a):
+        a = mmv.resolve_alias(a)
+        if a["kind"] == "array":
+            return [[v] for x in alts(mmv, a["element"]) for v in variants(x)]
+        if a["kind"] == "or":
+            return [v for x in alts(mmv, a) for v in variants(x)]
+        if not (a["kind"] == "reference" and a["name"] in mmv.S):
+            return []
+        base = mmv.value(a, 1, 0, 0)
+        if not isinstance(base, dict):
+            return []
+        opt = [pn for pn, p in mmv.flat(a["name"]).items() if p.get("optional") and pn not in base and pn in keys]
+        out = []
+        for r in range(2, len(opt) + 1):          # sizes 0 and 1 are in the site stream already
+            for sub in itertools.combinations(opt, r):
+                v = dict(base)
+                for pn in sub:
+                    v[pn] = mmv.value(mmv.flat(a["name"])[pn]["type"], 2, 0, 2)
+                out.append(v)
+                if len(out) >= cap:
+                    return out
+        return out
+    for sn, pn, t, kind in occurrences(mmv):
+        if sn not in pkg["classes"]:
+            continue
+        base = mmv.value(mmlib.ref(sn), 0, 0, 0)
+        for ai, a in enumerate(alts(mmv, t)):
+            for v in variants(a):
+                j = dict(base)
+                j[pn] = v if kind == "prop" else ([v] if kind in ("elem", "elem-in-or") else {"k": v})
+                cases.append({"target": sn, "input": j, "kind": "site", "mmty": "(TRef %s)" % V.q(sn),
+                              "site": "%s.%s:%s:alt%d=%s:probed-subset" % (sn, pn, kind, ai, short(a))})
+    for r in mmv.doc["requests"]:
+        names = pkg["methods"].get(r["method"])
+        if not names or not names[1]:
+            continue
+        for ai, a in enumerate(alts(mmv, r["result"])):
+            for v in variants(a):
+                cases.append({"target": names[1], "input": {"jsonrpc": "2.0", "id": 1, "result": v}, "kind": "site-result",
+                              "mmty": "(resp_ty %s)" % V.q(r["method"]), "site": "%s.result:alt%d=%s:probed-subset" % (names[1], ai, short(a))})
+    return cases
+
+
 def hook_fuzz_cases(mmv, pkg, rng, per_union=16):
     """Differential fuzz of every union type the package dispatches on (registered hooks, cattrs' own disambiguators, Optional[...]):
     the union itself is the target; inputs are built from valid values of its member classes by dropping / adding / re-kinding the
@@ -617,6 +681,8 @@ def check_property(chk, prop, streams, extra_gen=()):
         cases = []
         if "site" in streams:
             cases += site_stream(mmv, pkg, single_optional=True)
+            if ok:
+                cases += probe_subset_cases(mmv, pkg)
         if "alias" in streams:
             cases += alias_cases(mmv, pkg)
         if "sys" in streams:
